@@ -46,6 +46,9 @@ pub struct Case {
     /// (more than a pipe buffer, should they travel through one)
     #[serde(default)]
     pub big_args: bool,
+    /// the run is confined to this many CPUs (0: all), as in a 1-2 vCPU container
+    #[serde(default)]
+    pub cpus: u8,
 }
 
 pub fn strategy(max_n: usize) -> impl Strategy<Value = Case> {
@@ -99,6 +102,15 @@ pub fn strategy(max_n: usize) -> impl Strategy<Value = Case> {
                 early_output: if n <= 12 { early_output } else { 0 },
                 undefined_member: gp % 4 == 0,
                 big_args: gp % 5 == 1,
+                cpus: if n <= 16 && !listener {
+                    match gp % 7 {
+                        3 => 1,
+                        5 => 2,
+                        _ => 0,
+                    }
+                } else {
+                    0
+                },
             }
         })
 }
@@ -116,6 +128,9 @@ fn attempt(case: &Case, w: usize, timeout_ms: u64) -> Result<(bool, CaseInfo, Va
     let mut env = Env::new(w);
     env.extra_env.push(("TOKIO_WORKER_THREADS".into(), case.tokio_workers.to_string()));
     env.install_config(cfg);
+    if case.cpus > 0 {
+        env.cpus = Some(case.cpus as usize);
+    }
     let an = env.mr(&["analyze", "--target-groups"]);
     let Some(av) = an.json() else {
         return inconclusive(format!("analyze failed: {}", an.brief()));
@@ -249,6 +264,7 @@ fn attempt(case: &Case, w: usize, timeout_ms: u64) -> Result<(bool, CaseInfo, Va
         .class_if(case.shared_exe, "shared-executable")
         .class_if(case.history != 0, "after-an-earlier-run")
         .class_if(case.nofile_per_member > 0, "modest-open-files-limit")
+        .class_if(case.cpus > 0, "confined-to-1-2-cpus")
         .class_if(case.early_output > 0, "members-print-more-than-a-pipe-buffer-first")
         .class_if(undefined.is_some(), "one-member-does-not-define-the-command")
         .class_if(case.big_args && !case.shared_exe, "one-member-gets-100KiB-of-arguments")
@@ -305,7 +321,7 @@ pub fn run(ctx: &mut Ctx) {
     ctx.hang_limit = std::time::Duration::from_secs(600);
     ctx.shrink_budget = std::time::Duration::from_secs(1);
     ctx.rule = "layered configuration with one layer of n mutually independent targets (n in 2..24, and the size boundaries 31-34 and 63-66; thorough: up to 130) placed first / in the middle / last, \
-1-3 commands, tokio worker threads in {1,2,4,16}, 30% with a `log tail` listener attached, 30% with one script shared by all targets through commands.definitions; half of the cases after an earlier run of the same commands (all succeeding, all group members failing, or a random part of the group failing); the groups are read from `analyze --target-groups`, one group of size >= 2 is chosen and all its members run the helper in \
+1-3 commands, tokio worker threads in {1,2,4,16}, 30% with a `log tail` listener attached, some small groups with the whole run confined to 1 or 2 CPUs (sched_setaffinity, as in a small container), 30% with one script shared by all targets through commands.definitions; half of the cases after an earlier run of the same commands (all succeeding, all group members failing, or a random part of the group failing); the groups are read from `analyze --target-groups`, one group of size >= 2 is chosen and all its members run the helper in \
 barrier mode (wait until all members have started) under the 1st-3rd command. oracle: run exits 0, every member started, no barrier time-out (20 s, confirmed with 40 s). \
 non-trivial = group size >= 3; distinct by SHA-256"
         .to_string();
